@@ -229,6 +229,12 @@ impl Check for TradingSummaryCheck {
     type Case = SummaryCase;
     const NAME: &'static str = "trading_summary";
 
+    fn normalise(mut case: SummaryCase) -> SummaryCase {
+        // full account snapshots are not part of this check's input domain
+        case.events.retain(|e| !matches!(e, EvSpec::AccountSnapshot { .. }));
+        case
+    }
+
     fn strategy(tier: Tier) -> BoxedStrategy<SummaryCase> {
         let max = match tier {
             Tier::Quick => 40,
